@@ -1983,3 +1983,84 @@ Proof. apply (pq_reorder_complete_from_step step_C). Qed.
 
 Corollary pq_reorder_err elems F : pq_reorder elems F = Err ValueErr -> ~ exists res, SetsOK F res.
 Proof. apply (pq_reorder_err_from_step step_C). Qed.
+
+(* ------------------------------------------------------------------------------------------------ *)
+(* the whole contract of reorder_sets is now a theorem about the mirror; chained down to the solver and recognisers *)
+From PrefVerif Require Import Model.Approval Proofs.Approval.
+
+Theorem pq_contract elems_of : (forall F, incl (concat F) (elems_of F)) -> reorder_contract (pq_reorder_fn elems_of).
+Proof.
+  intros Hcov F _ _. unfold pq_reorder_fn. destruct (pq_reorder (elems_of F) F) as [res|e] eqn:E.
+  - apply (pq_reorder_sound (elems_of F)); [apply Hcov|exact E].
+  - intros res Hres. destruct (pq_reorder_complete (elems_of F) F (ex_intro _ res Hres)) as (r & Hr). congruence.
+Qed.
+
+Theorem pq_solve_correct elems_of : (forall F, incl (concat F) (elems_of F)) -> forall rows nc,
+  match solve_model (pq_reorder_fn elems_of) rows nc with
+  | Some perm => c1p_check rows nc perm = true
+  | None => c1p_decide rows nc = false
+  end.
+Proof. intros Hcov. apply solve_model_correct. now apply pq_contract. Qed.
+
+Theorem pq_isC1P_correct elems_of : (forall F, incl (concat F) (elems_of F)) -> forall rows nc,
+  isC1P_model (pq_reorder_fn elems_of) rows nc = c1p_decide rows nc.
+Proof. intros Hcov. apply isC1P_model_correct. now apply pq_contract. Qed.
+
+(* completeness needs no hypothesis on the visiting order *)
+Theorem pq_solve_complete elems_of rows nc :
+  c1p_decide rows nc = true -> exists perm, solve_model (pq_reorder_fn elems_of) rows nc = Some perm.
+Proof.
+  intros Hd. unfold solve_model. destruct (group_cols_spec rows nc) as [Hfam _].
+  apply c1p_decide_correct in Hd. destruct (family_arrangement rows nc _ Hfam Hd) as (res & Hres).
+  unfold pq_reorder_fn. destruct (pq_reorder_complete (elems_of (map fst (group_cols rows nc))) _ (ex_intro _ res Hres)) as (r & Hr).
+  rewrite Hr. eauto.
+Qed.
+
+Theorem pq_isC1P_complete elems_of rows nc :
+  c1p_decide rows nc = true -> isC1P_model (pq_reorder_fn elems_of) rows nc = true.
+Proof.
+  intros Hd. unfold isC1P_model. pose proof (dedup_sets_family rows nc) as Hfam.
+  apply c1p_decide_correct in Hd. destruct (family_arrangement rows nc _ Hfam Hd) as (res & Hres).
+  unfold pq_reorder_fn.
+  destruct (pq_reorder_complete (elems_of (dedup_sets (map (col_set rows) (seq 0 nc)))) _ (ex_intro _ res Hres)) as (r & Hr).
+  now rewrite Hr.
+Qed.
+
+Lemma pq_solver_ok elems_of : (forall F, incl (concat F) (elems_of F)) ->
+  forall M nc, match solve_model (pq_reorder_fn elems_of) M nc with
+               | Some perm => c1p_check M nc perm = true
+               | None => c1p_decide M nc = false
+               end.
+Proof. exact (pq_solve_correct elems_of). Qed.
+
+(* the six recognisers on the mirrored solver on the mirrored PQ-tree: sound, complete, valid witnesses *)
+Section MirrorRecognisers.
+Variable elems_of : list (list nat) -> list nat.
+Hypothesis elems_cover : forall F, incl (concat F) (elems_of F).
+Let solve := solve_model (pq_reorder_fn elems_of).
+
+Theorem pq_ci_correct alts ballots :
+  match is_candidate_interval solve alts ballots with
+  | Some order => ci_check alts ballots order = true | None => ~ CI alts ballots end.
+Proof. apply recog_ci. exact (pq_solver_ok elems_of elems_cover). Qed.
+Theorem pq_cei_correct alts ballots :
+  match is_candidate_extremal_interval solve alts ballots with
+  | Some order => cei_check alts ballots order = true | None => ~ CEI alts ballots end.
+Proof. apply recog_cei. exact (pq_solver_ok elems_of elems_cover). Qed.
+Theorem pq_vi_correct alts ballots :
+  match is_voter_interval solve alts ballots with
+  | Some border => vi_check alts ballots border = true | None => ~ VI alts ballots end.
+Proof. apply recog_vi. exact (pq_solver_ok elems_of elems_cover). Qed.
+Theorem pq_vei_correct alts ballots :
+  match is_voter_extremal_interval solve alts ballots with
+  | Some border => vei_check alts ballots border = true | None => ~ VEI alts ballots end.
+Proof. apply recog_vei. exact (pq_solver_ok elems_of elems_cover). Qed.
+Theorem pq_wsc_correct alts ballots :
+  match is_weakly_single_crossing solve alts ballots with
+  | Some border => wsc_check alts ballots border = true | None => ~ WSC alts ballots end.
+Proof. apply recog_wsc. exact (pq_solver_ok elems_of elems_cover). Qed.
+Theorem pq_de_correct alts ballots : Forall (fun b => incl b alts) ballots ->
+  match is_dichotomous_euclidean solve alts ballots with
+  | Some w => de_check alts ballots (fst w) (snd w) = true | None => ~ DE alts ballots end.
+Proof. apply recog_de. exact (pq_solver_ok elems_of elems_cover). Qed.
+End MirrorRecognisers.
